@@ -678,6 +678,13 @@ func (x *Exec) arith(st *State, n ast.Node, op token.Token, a, b Val, t types.Ty
 			f = "t" + f
 		}
 		return Val{T: app(f, a.T, b.T), S: "Int", G: t}
+	case token.SHL, token.SHR, token.AND, token.OR, token.XOR, token.AND_NOT:
+		// bit operations are uninterpreted (total) functions on integers: nothing but the
+		// range of the result type is known about them
+		f := map[token.Token]string{token.SHL: "bshl", token.SHR: "bshr", token.AND: "band", token.OR: "bor", token.XOR: "bxor", token.AND_NOT: "bandnot"}[op]
+		r := Val{T: app(f, a.T, b.T), S: "Int", G: t}
+		st.assume(inRange(r.T, t))
+		return r
 	default:
 		x.unsupported(n, "operator "+op.String())
 		return Val{T: "0", S: "Int", G: t}
